@@ -239,13 +239,13 @@ class History(object):
         self.final, self.seen, self.seen_cap = o.fresh()
         self.line = " | ".join(parts + [self.final])
 
-    def request(self, var="111"):
+    def request(self, var="111", unconfirmed_repair=False):
         """request line for drv_c01"""
         lay = self.lay
         att = ",".join("%s:%s" % (hx(d), "n" if f is None else "%s%d" % ({"lost": "l", "late": "e", "status": "l"}[f[1]], f[0]))
                        for d, f in self.attempts)
         if self.kind in ("t2", "t1s", "t1d"):
-            return "h12 %s %s %s" % (self.kind, hx(self.base), att)
+            return "%s %s %s %s" % ("h12r" if unconfirmed_repair else "h12", self.kind, hx(self.base), att)
         if self.kind in ("t3", "emu"):
             return "h3 %s %s" % (hx(self.base), att)
         return "h4 %s %s %s %s %d %d %s" % (var, hx(lay.cc), hx(self.base), hx(lay.fid), lay.mle, lay.mlc, att)
@@ -262,3 +262,13 @@ class History(object):
         elif self.kind in ("t3", "t4", "emu"):
             d["layout"] = {k: v for k, v in lay.descr().items() if k not in ("mem",)}
         return d
+
+
+def probe_unconfirmed_repair():
+    """does the tree under test resend the unit of an unacknowledged write (repair of finding
+    t12-empty-after-unacknowledged-length-write)?  Witness of the finding: NDEF TLV at 18 of a 64 byte Type 2 Tag,
+    `01 02 03` written with the last WRITE executed but unacknowledged, then the empty message."""
+    mem = bytearray(64)
+    mem[12:23] = bytes([0xE1, 0x10, 6, 0, 0, 0, 3, 2, 0xAA, 0xBB, 0xFE])
+    h = History("t2", {"kind": "t2", "mem": mem}, [(b"\x01\x02\x03", (2, "late")), (b"", None)])
+    return h.results == ["fail", "ok"] and h.seen == b""
